@@ -279,7 +279,17 @@ class HeapWalker(FuncWalker):
             st.pts[a.kwarg.arg] = frozenset({'P:' + a.kwarg.arg})
 
     def fresh(self, node, label='') -> str:
-        return 'A:%s:%d:%d' % (self.f.qname, getattr(node, 'lineno', 0), getattr(node, 'col_offset', 0))
+        # one site per syntactic node: nodes that share a position (statements expanded by the inlining pre-pass all carry the
+        # position of the call they replace) are told apart by a serial number in order of first use (deterministic)
+        sites = self.__dict__.setdefault('_sites', {})
+        used = self.__dict__.setdefault('_site_names', {})
+        k = id(node)
+        if k not in sites:
+            base = 'A:%s:%d:%d' % (self.f.qname, getattr(node, 'lineno', 0), getattr(node, 'col_offset', 0))
+            n = used.get(base, 0)
+            used[base] = n + 1
+            sites[k] = base if n == 0 else '%s~%d' % (base, n)
+        return sites[k]
 
     # ----------------------------------------------------------- index kinds
     def idx_kind(self, idx: ast.expr, st: _State, depth=0) -> str:
@@ -466,8 +476,14 @@ class HeapWalker(FuncWalker):
         else:
             items = list(e.elts)
         inner = set()
-        for it in items:
-            inner |= self.pt(it, st)
+        for i, it in enumerate(items):
+            v = self.pt(it, st)
+            inner |= v
+            if isinstance(e, ast.Tuple) and not any(isinstance(x, ast.Starred) for x in e.elts):
+                # components of a tuple display are remembered one by one: `t = (a, b); x, y = t` binds x to a and y to b
+                st.heap[(a, '#%d' % i)] = v
+        if isinstance(e, ast.Tuple) and not any(isinstance(x, ast.Starred) for x in e.elts):
+            st.heap[(a, '#n')] = frozenset({'#%d' % len(items)})
         if inner:
             key = (a, '*')
             st.heap[key] = st.heap.get(key, NO) | frozenset(inner)
@@ -514,6 +530,10 @@ class HeapWalker(FuncWalker):
                 comps = self.call_comps[id(rhs)]
             elif isinstance(rhs, (ast.Tuple, ast.List)) and len(rhs.elts) == len(target.elts):
                 comps = [self.pt(x, st) for x in rhs.elts]
+            if comps is None and val and all((l, '#n') in st.heap and st.heap[(l, '#n')] == frozenset({'#%d' % len(target.elts)}) for l in val) \
+                    and not any(isinstance(t, ast.Starred) for t in target.elts):
+                # every value that reaches here is a tuple display of this arity: unpack component-wise
+                comps = [frozenset().union(*[st.heap.get((l, '#%d' % i), NO) for l in val]) for i in range(len(target.elts))]
             for i, t in enumerate(target.elts):
                 if isinstance(t, ast.Starred):
                     t = t.value
